@@ -208,7 +208,9 @@ def walk(w, rnd, profile, steps, opts):
                 lst = br.seen[src]
                 item = lst[-1] if rnd.random() < 0.5 else rnd.choice(lst)      # recent ones more often; old ones = duplicates / late
                 if k == "SUBACK":
-                    pkts.append(W.suback(item[0], [rnd.choice([0, 1, 2, 128]) for _ in range(item[1])]))
+                    # (granted lists of any length: usually one code per topic asked for, sometimes none, fewer or more)
+                    ng = item[1] if rnd.random() < 0.8 else rnd.choice([0, 0, max(0, item[1] - 1), item[1] + 1])
+                    pkts.append(W.suback(item[0], [rnd.choice([0, 1, 2, 128]) for _ in range(ng)]))
                 else:
                     pkts.append(W.ack(k, item))
             do(w.recv(a, b"".join(pkts)))
